@@ -697,8 +697,8 @@ VMLoop:
 			handler.returnTo = vm.ip
 			// save current sp to come back to same position
 			handler.sp = vm.sp
-			// remove current error if any
-			vm.curFrame.errHandlers.err = nil
+			// remove pending error of this handler if any
+			handler.err = nil
 			// set ip to finally's position
 			vm.ip = pos - 1
 		case OpUnary:
@@ -837,9 +837,9 @@ func (vm *VM) xOpSetupCatch() {
 		hdl := errHandlers.last()
 		hdl.catch = 0
 
-		if errHandlers.err != nil {
-			value = errHandlers.err
-			errHandlers.err = nil
+		if hdl.err != nil {
+			value = hdl.err
+			hdl.err = nil
 		}
 	}
 
@@ -865,10 +865,11 @@ func (vm *VM) xOpThrow() error {
 	switch op {
 	case 0: // system
 		errHandlers := vm.curFrame.errHandlers
-		if errHandlers.hasError() {
+		if hdl := errHandlers.last(); hdl != nil && hdl.err != nil {
+			rerr := hdl.err
 			errHandlers.pop()
 			// do not put position info to error for re-throw after finally.
-			if err := vm.throw(errHandlers.err, true); err != nil {
+			if err := vm.throw(rerr, true); err != nil {
 				return err
 			}
 		} else if pos := errHandlers.hasReturnTo(); pos > 0 {
@@ -884,6 +885,9 @@ func (vm *VM) xOpThrow() error {
 			}
 			vm.sp = handler.sp
 			vm.ip = pos - 1
+		} else {
+			// try statement is completed, its handler must not outlive it
+			errHandlers.pop()
 		}
 	case 1: // user
 		obj := vm.stack[vm.sp-1]
@@ -945,26 +949,23 @@ func (vm *VM) throw(err *RuntimeError, noTrace bool) error {
 	}
 
 	vm.frameIndex = index + 1
-
-	if e := vm.handleThrownError(frame, err); e != nil {
-		return e
-	}
-
+	// handleThrownError may re-throw from the current frame, switch to it first
 	vm.curFrame = frame
 	vm.curFrame.fn = frame.fn
 	vm.curInsts = frame.fn.Instructions
 
-	return nil
+	return vm.handleThrownError(frame, err)
 }
 
 func (vm *VM) handleThrownError(frame *frame, err *RuntimeError) error {
-	frame.errHandlers.err = err
 	handler := frame.errHandlers.last()
 
 	// if we have catch>0 goto catch else follow finally (one of them must be set)
 	if handler.catch > 0 {
+		handler.err = err
 		vm.ip = handler.catch - 1
 	} else if handler.finally > 0 {
+		handler.err = err
 		vm.ip = handler.finally - 1
 	} else {
 		frame.errHandlers.pop()
@@ -1438,6 +1439,7 @@ type errHandler struct {
 	catch    int
 	finally  int
 	returnTo int
+	err      *RuntimeError
 }
 
 type errHandlers struct {
